@@ -113,8 +113,10 @@ func (h *Session) findOrCreateHostWithLock(addr Addr) (host *Host, found bool) {
 	//optimise the common path
 	h.mutex.RLock()
 	if host, found = h.HostTable.Table[addr.IP]; found && bytes.Equal(host.MACEntry.MAC, addr.MAC) {
+		host.MACEntry.Row.Lock() // readers hold the row lock only
 		host.LastSeen = now
 		host.MACEntry.LastSeen = now
+		host.MACEntry.Row.Unlock()
 		h.mutex.RUnlock()
 		return host, true
 	}
@@ -137,6 +139,8 @@ func (h *Session) findOrCreateHostWithLock(addr Addr) (host *Host, found bool) {
 	// this is new IP,
 	// create a new host and link to mac entry
 	macEntry := h.MACTable.findOrCreate(addr.MAC)
+	macEntry.Row.Lock() // the mac entry may exist already: readers hold the row lock only
+	defer macEntry.Row.Unlock()
 	host = &Host{Addr: Addr{IP: addr.IP, MAC: macEntry.MAC}, MACEntry: macEntry, Online: false} // set to false to trigger Online transition
 	host.dirty = true
 	host.Manufacturer = FindManufacturer(macEntry.MAC)
@@ -158,9 +162,12 @@ func (h *Session) deleteHost(ip netip.Addr) {
 		if Logger.IsDebug() {
 			Logger.Msg("delete host").IP("ip", ip).Struct(host).Write()
 		}
+		host.MACEntry.Row.Lock() // the host list is read with the row lock only
 		host.MACEntry.unlink(host)
+		last := len(host.MACEntry.HostList) == 0
+		host.MACEntry.Row.Unlock()
 		delete(h.HostTable.Table, ip)
-		if len(host.MACEntry.HostList) == 0 { // delete if last host
+		if last { // delete if last host
 			h.MACTable.delete(host.MACEntry.MAC)
 		}
 		return
